@@ -7,6 +7,7 @@ use crate::parse::{self, PVertex};
 use crate::real::{exact_copy, guarded, kids_of, reload, replay, thread_file};
 use rustc_hash::{FxHashMap, FxHashSet};
 use sodg::{Label, Sodg};
+use std::cell::RefCell;
 use std::collections::{BTreeMap, BTreeSet};
 use std::sync::Mutex;
 
@@ -719,12 +720,43 @@ pub fn clone_probe<const N: usize>(cfg: &HxCfg, g: &Sodg<N>, m: &Model, hist: &d
     }
 }
 
+/// What the path holds before a probed save(): the complete image of another, bigger graph (an
+/// earlier checkpoint, written by save() itself) followed by filler up to 64 KiB. Whatever of it
+/// survives the new save() - a tail, a renamed copy next to the file - is recognisably not the new graph.
+fn older_checkpoint<const N: usize>() -> Vec<u8> {
+    thread_local! {
+        static OLDER: RefCell<BTreeMap<usize, Vec<u8>>> = const { RefCell::new(BTreeMap::new()) };
+    }
+    if let Some(b) = OLDER.with(|o| o.borrow().get(&N).cloned()) {
+        return b;
+    }
+    let mut bytes = guarded(|| {
+        let mut b: Sodg<N> = Sodg::empty(40);
+        for v in [0usize, 1, 2, 30] {
+            b.add(v);
+        }
+        b.bind(0, 1, lab(0));
+        b.bind(1, 2, lab(0));
+        b.put(2, &crate::menu::dat(6));
+        b.put(30, &crate::menu::dat(0));
+        let f = thread_file("older");
+        match b.save(&f) {
+            Ok(_) => std::fs::read(&f).unwrap_or_default(),
+            Err(_) => vec![],
+        }
+    })
+    .unwrap_or_default();
+    bytes.resize(1 << 16, 0xAA);
+    OLDER.with(|o| o.borrow_mut().insert(N, bytes.clone()));
+    bytes
+}
+
 pub fn reload_probe<const N: usize>(g: &Sodg<N>, m: &Model, out: &mut Vec<Finding>, counters: &mut BTreeMap<&'static str, u64>) -> Option<Vec<u8>> {
     let tags: &[&'static str] = &["C08"];
     let f = thread_file("probe");
     // the path already holds a longer file (a second checkpoint over a bigger first one): save() must
     // leave exactly the new image there
-    let _ = std::fs::write(&f, vec![0xAAu8; 1 << 16]);
+    let _ = std::fs::write(&f, older_checkpoint::<N>());
     match guarded(|| g.save(&f)) {
         Err(e) => {
             out.push(Finding::new("save-panic", tags, format!("save() panicked: {e}")));
